@@ -49,3 +49,67 @@ def register(ix):
                     at_call={"_set_context": ["is_deep_copy(call_args[0])", "made_in_iteration(call_args[0], 0)",
                                               "call_args[0] == context"]},
                     ensures=["context == old(context)"]))
+    register_split_export(ix)
+
+
+# ---------------------------------------------------------------------------------------------------- Split exports
+def register_split_export(ix):
+    """LenaSplit._get_context: the intersection of the contexts of ALL branches that have one (also empty contexts)"""
+    from pyvc.smt import T
+    from pyvc.sym import Opaque
+    from pyvc.speclib import lst_term
+    from pyvc.dicts import dterm
+
+    CF = "lena/context/functions.py"
+
+    def sp_inter_all(ip, st, pos, kws):
+        """inter_all(cs): lena.context.intersection of the list of dictionaries cs (reference: greatest common
+        sub-dictionary; its own contract is the subject of C07)"""
+        reg = ip.reg
+        reg.need_val()
+        ls = reg.lst("Val")
+        f = reg.ufun("inter_all", [ls], "Val")
+        return Opaque(T("(%s %s)" % (f, lst_term(ip, st, pos[0], ls).s), "Val"))
+
+    def sp_branch_contexts(ip, st, pos, kws):
+        """branch_contexts(seqs, n): [s._get_context() for s in seqs[:n] if hasattr(s, '_get_context')] in branch order"""
+        from pyvc.builtins_ import obj_preds
+        from pyvc.calls import elem_state
+        reg = ip.reg
+        reg.need_val()
+        obj_preds(ip)
+        ls, lo = reg.lst("Val"), reg.lst("Obj")
+        reg.need("St")
+        reg.ufun("el_getctx", ["Obj", "St"], "Val")
+        k = reg.key("_get_context").s
+        reg.fun_decl("branch_contexts",
+                     "(define-fun-rec branch_contexts ((ss {lo}) (es (Array Obj St)) (n Int)) {ls} "
+                     "(ite (<= n 0) {empty} "
+                     "(let ((p (branch_contexts ss es (- n 1))) (s (select (arr_{lo} ss) (- n 1)))) "
+                     "(ite (has_attr_Obj s {k}) "
+                     "(mk_{ls} (store (arr_{ls} p) (len_{ls} p) (el_getctx s (select es s))) (+ (len_{ls} p) 1)) p))))".format(
+                         lo=lo, ls=ls, k=k, empty=reg.l_empty_canonical(ls).s))
+        if "$elst" not in st.env:
+            elem_state(ip, st, Opaque(reg.new("anyel", "Obj")))
+        return ip.lst_view(T("(branch_contexts %s %s %s)" % (lst_term(ip, st, pos[0], lo).s, st.env["$elst"].t.s,
+                                                               ip.num(pos[1]).s), ls))
+
+    ix.spec_names["inter_all"] = sp_inter_all
+    ix.spec_names["branch_contexts"] = sp_branch_contexts
+    inter = Contract(CF, "intersection", name="intersection[list of dictionaries]", props=[], trusted=True,
+                     qualkey="intersection#variadic",
+                     params={"dicts": "Lst[Val]"}, result="Dict",
+                     ensures=["result == inter_all(dicts)"],
+                     notes="assumed at the call in LenaSplit._get_context: what intersection computes is the subject of C07")
+    ix.add(inter)
+    if (CF, "intersection") not in ix.by_key:
+        ix.by_key[(CF, "intersection")] = inter        # (P_ctx.py registers the verified 2-dictionary contract under this key)
+    ix.add(Contract(
+        SP, "LenaSplit._get_context", props=["C13"],
+        params={"self": "Self[LenaSplit]"}, result="Dict", ghost={"elstate": True},
+        local_types={"contexts": "Lst[Val]"},
+        raises={"LenaKeyError": "?"},
+        loops={0: LoopSpec(invariant=["same(contexts, branch_contexts(self._seqs, _i))"])},
+        # a Split exports the intersection of its branches' contexts: every branch that has a context counts, also an
+        # empty one (a branch that sets nothing makes the intersection empty)
+        ensures=["result == inter_all(branch_contexts(self._seqs, len(self._seqs)))"]))
